@@ -26,7 +26,16 @@ const RLE: &str = "1.2.840.10008.1.2.5";
 const JPEG: &str = "1.2.840.10008.1.2.4.50";
 const J2K: &str = "1.2.840.10008.1.2.4.90"; // no codec in this build: data set only
 const FILE_TS: &[&str] = &[ILE, ELE, ELE, EBE, RLE, JPEG, J2K];
-const CLASS_POOL: &[&str] = &[uids::CT_IMAGE_STORAGE, uids::MR_IMAGE_STORAGE, uids::SECONDARY_CAPTURE_IMAGE_STORAGE];
+const CLASS_POOL: &[&str] = &[uids::CT_IMAGE_STORAGE, uids::MR_IMAGE_STORAGE, uids::SECONDARY_CAPTURE_IMAGE_STORAGE,
+    uids::COMPUTED_RADIOGRAPHY_IMAGE_STORAGE, uids::ENHANCED_MR_IMAGE_STORAGE, uids::ENHANCED_CT_IMAGE_STORAGE];
+/// SOP classes of which the first is a proper prefix of the second (as text): a comparison by
+/// prefix, by length-limited compare or after truncation confuses them.
+const PREFIX_PAIRS: &[(&str, &str)] = &[
+    (uids::COMPUTED_RADIOGRAPHY_IMAGE_STORAGE, uids::DIGITAL_X_RAY_IMAGE_STORAGE_FOR_PRESENTATION), // ...1.1.1 / ...1.1.1.1
+    (uids::MR_IMAGE_STORAGE, uids::ENHANCED_MR_IMAGE_STORAGE),                                     // ...1.1.4 / ...1.1.4.1
+    (uids::CT_IMAGE_STORAGE, uids::ENHANCED_CT_IMAGE_STORAGE),                                     // ...1.1.2 / ...1.1.2.1
+    ("1.2.826.0.1.3680043.9.7433.5", "1.2.826.0.1.3680043.9.7433.5.1"),                           // artificial uid / uid.1
+];
 
 struct GenFile {
     class: String,
@@ -221,12 +230,19 @@ pub fn cases(ctx: &Ctx) -> Vec<Case> {
         let dir = root.join(format!("case{i}"));
         std::fs::create_dir_all(&dir).unwrap();
         // ---- files
-        let nfiles = if i < 2 { 2 } else { r.range(1, 3) as usize };
+        // prefix trap: two files whose SOP classes are prefix-related; the acceptor rejects every context
+        // of the shorter class and accepts the longer one (case 2 is the fixed witness CR / DX)
+        let trap: Option<(&str, &str)> = if i == 2 { Some(PREFIX_PAIRS[0]) } else if i > 2 && r.chance(1, 3) { Some(*r.pick(PREFIX_PAIRS)) } else { None };
+        let nfiles = if i < 2 { 2 } else if trap.is_some() { r.range(2, 3) as usize } else { r.range(1, 3) as usize };
         let mut files: Vec<GenFile> = vec![];
         for k in 0..nfiles {
             let (class, ts) = match (i, k) {
                 (0, 0) | (1, 0) => (CLASS_POOL[0], ELE),  // witness: class A / ELE, only class B / ILE accepted
                 (0, 1) | (1, 1) => (CLASS_POOL[1], ILE),
+                (2, 0) => (PREFIX_PAIRS[0].0, ELE),
+                (2, 1) => (PREFIX_PAIRS[0].1, ELE),
+                (_, 0) if trap.is_some() => (trap.unwrap().0, *r.pick(FILE_TS)),
+                (_, 1) if trap.is_some() => (trap.unwrap().1, *r.pick(FILE_TS)),
                 _ => (*r.pick(CLASS_POOL), *r.pick(FILE_TS)),
             };
             let mut f = gen_file(&mut r, class, &format!("1.2.3.{}.{}.{}", ctx.seed % 1000, i, k), ts);
@@ -237,15 +253,18 @@ pub fn cases(ctx: &Ctx) -> Vec<Case> {
             files.push(f);
         }
         // ---- options
-        let ignore = i >= 2 && r.chance(1, 6);
-        let never = i >= 2 && r.chance(1, 5);
-        let conc: Option<u32> = if i == 1 { Some(1) } else if i >= 2 && r.chance(1, 4) { Some(r.range(1, 2) as u32) } else { None };
+        let ignore = i >= 3 && r.chance(1, 6);
+        let never = i >= 3 && r.chance(1, 5);
+        let conc: Option<u32> = if i == 1 { Some(1) } else if i >= 3 && r.chance(1, 4) { Some(r.range(1, 2) as u32) } else { None };
         // ---- acceptor policy over every (abstract syntax, transfer syntax) the tool can propose
         let mut policy: BTreeMap<(String, String), Option<String>> = BTreeMap::new();
         let p_accept = *r.pick(&[2u64, 4, 6, 8]);
         for f in &files {
             for t in [f.ts.as_str(), ELE, ILE] {
-                let acc = if i < 2 { f.class == CLASS_POOL[1] && t == ILE } else { r.chance(p_accept, 10) };
+                let acc = if i < 2 { f.class == CLASS_POOL[1] && t == ILE }
+                    else if let Some((short, long)) = trap {
+                        if f.class == short { false } else if f.class == long { i == 2 || r.chance(8, 10) } else { r.chance(p_accept, 10) }
+                    } else { r.chance(p_accept, 10) };
                 policy.entry((f.class.clone(), t.to_string())).or_insert(if acc { Some(t.to_string()) } else { None });
             }
         }
@@ -337,7 +356,7 @@ pub fn cases(ctx: &Ctx) -> Vec<Case> {
         }
         let accepted: Vec<String> = policy.iter().filter(|(_, v)| v.is_some()).map(|((a, t), _)| format!("{}/{}", a.rsplit('.').next().unwrap_or(""), t.rsplit("10008.").next().unwrap_or(""))).collect();
         let nsent: usize = per_file.iter().map(|v| v.len()).sum();
-        let bucket = format!("{}{}{}files={} sent={}", if conc.is_some() { "async " } else { "" }, if ignore { "ignore-class " } else { "" }, if never { "never-transcode " } else { "" }, files.len(), nsent);
+        let bucket = format!("{}{}{}{}files={} sent={}", if trap.is_some() { "prefix-trap " } else { "" }, if conc.is_some() { "async " } else { "" }, if ignore { "ignore-class " } else { "" }, if never { "never-transcode " } else { "" }, files.len(), nsent);
         // what was received before a time limit still must not violate the property, but a run cut
         // short proves nothing: it is reported as not applicable unless a definite violation was seen
         if timed_out && matches!(oracle, Oracle::Holds) { oracle = Oracle::NotApplicable; }
